@@ -33,11 +33,14 @@ CONSTANT KnownDeviations      \* no deviation is defined for C09 so far; kept fo
 Rec == ndJsonDeserialize(IOEnv.TRACE)
 
 \* pos, out: inherited from Cipher (the current cipher instance)
-VARIABLES l,      \* position in Rec
-          seq,    \* last sequence number seen in the current run
-          cur,    \* parameters of the current cipher instance
-          kc,     \* keystream cache: [p |-> parameters, ks |-> bytes so far, g |-> RC4 generator after them]
-          viol, devs
+VARIABLE m      \* the monitor's state, one record (so that TLC evaluates the judgement of an event once):
+                \*   l    position in Rec
+                \*   seq  last sequence number seen in the current run
+                \*   cur  parameters of the current cipher instance
+                \*   pos  its stream position (copied to Cipher's variable pos)
+                \*   out  expected output of the last application (copied to Cipher's variable out)
+                \*   kc   keystream cache [p |-> parameters, ks |-> bytes so far, g |-> RC4 generator after them]
+                \*   viol, devs  verdict lists
 
 Has(e, f) == f \in DOMAIN e
 RangeOf(s) == {s[i] : i \in DOMAIN s}
@@ -98,47 +101,47 @@ PureOk(e, ks) ==
     [] OTHER -> FALSE
 
 \* ------------------------------------------------------------ one event
-Keep(good) == [cur |-> cur, pos |-> pos, out |-> out, kc |-> kc, good |-> good]
+\* Judge(s, e): the monitor state after event e, field good = the event conforms
+Keep(s, good) == [cur |-> s.cur, pos |-> s.pos, out |-> s.out, kc |-> s.kc, good |-> good]
 
-Judge(e) ==
+Judge(s, e) ==
   CASE e.op = "init" ->
-         [cur |-> ParamsOf(e), pos |-> 0, out |-> <<>>, kc |-> kc, good |-> e.ok]
+         [cur |-> ParamsOf(e), pos |-> 0, out |-> <<>>, kc |-> s.kc, good |-> e.ok]
     [] e.op = "apply" ->
-         IF cur.kind = "none" THEN Keep(FALSE)
-         ELSE LET c2 == KcEnsure(kc, cur, pos + Len(e.data))
-                  x  == ApplyR(LAMBDA i : c2.ks[i + 1], pos, e.data)
-              IN [cur |-> cur, pos |-> x.st, out |-> x.res, kc |-> c2, good |-> e.ok /\ e.res = x.res]
+         IF s.cur.kind = "none" THEN Keep(s, FALSE)
+         ELSE LET c2 == KcEnsure(s.kc, s.cur, s.pos + Len(e.data))
+                  x  == ApplyR(LAMBDA i : c2.ks[i + 1], s.pos, e.data)
+              IN [cur |-> s.cur, pos |-> x.st, out |-> x.res, kc |-> c2, good |-> e.ok /\ e.res = x.res]
     [] e.op = "f" ->
-         IF ~e.ok THEN Keep(FALSE)
+         IF ~e.ok THEN Keep(s, FALSE)
          ELSE IF e.fn \in {"salsa20", "arc4"}
            THEN LET p  == IF e.fn = "arc4" THEN Arc4Params(e.key) ELSE SalsaParams(e.key, e.iv, e.blk, Ctr0)
-                    c2 == KcEnsure(kc, p, Len(e.data))
-                IN [cur |-> cur, pos |-> pos, out |-> out, kc |-> c2, good |-> PureOk(e, c2.ks)]
-           ELSE Keep(PureOk(e, <<>>))
-    [] OTHER -> Keep(FALSE)
+                    c2 == KcEnsure(s.kc, p, Len(e.data))
+                IN [cur |-> s.cur, pos |-> s.pos, out |-> s.out, kc |-> c2, good |-> PureOk(e, c2.ks)]
+           ELSE Keep(s, PureOk(e, <<>>))
+    [] OTHER -> Keep(s, FALSE)
 
-TInit == /\ CInit /\ l = 1 /\ seq = 0 /\ cur = NoParams /\ kc = KcFresh(NoParams)
-         /\ viol = <<>> /\ devs = <<>>
+After(s, e) ==
+  IF e.op = "new" THEN
+     [s EXCEPT !.l = s.l + 1, !.seq = 0, !.cur = NoParams, !.pos = 0, !.out = <<>>]
+  ELSE IF e.op = "hang" THEN     \* the call never returned (driver watchdog); the run ends here
+     [s EXCEPT !.l = s.l + 1, !.viol = Append(s.viol, s.l)]
+  ELSE
+     LET j == Judge(s, e)
+         good == j.good /\ e.seq = s.seq + 1
+     IN [l |-> s.l + 1, seq |-> e.seq, cur |-> j.cur, pos |-> j.pos, out |-> j.out, kc |-> j.kc,
+         viol |-> IF good THEN s.viol ELSE Append(s.viol, s.l), devs |-> s.devs]
+
+TInit == /\ CInit
+         /\ m = [l |-> 1, seq |-> 0, cur |-> NoParams, pos |-> 0, out |-> <<>>, kc |-> KcFresh(NoParams),
+                 viol |-> <<>>, devs |-> <<>>]
 
 Step ==
-  /\ l <= Len(Rec)
-  /\ LET e == Rec[l] IN
-     IF e.op = "new" THEN
-        /\ seq' = 0 /\ cur' = NoParams /\ CFresh
-        /\ UNCHANGED <<kc, viol, devs>>
-     ELSE IF e.op = "hang" THEN     \* the call never returned (driver watchdog); the run ends here
-        /\ viol' = Append(viol, l)
-        /\ UNCHANGED <<seq, cur, pos, out, kc, devs>>
-     ELSE
-        LET j == Judge(e)
-            good == j.good /\ e.seq = seq + 1
-        IN /\ seq' = e.seq
-           /\ cur' = j.cur /\ pos' = j.pos /\ out' = j.out /\ kc' = j.kc
-           /\ viol' = IF good THEN viol ELSE Append(viol, l)
-           /\ devs' = devs
-  /\ l' = l + 1
+  /\ m.l <= Len(Rec)
+  /\ m' = After(m, Rec[m.l])
+  /\ pos' = m'.pos /\ out' = m'.out       \* the Cipher machine's variables follow the monitor
 
 TNext == Step
-Done == (l = Len(Rec) + 1) =>
-  PrintT(<<"VERDICT", ToJson([events |-> Len(Rec), violations |-> viol, deviations |-> devs])>>)
+Done == (m.l = Len(Rec) + 1) =>
+  PrintT(<<"VERDICT", ToJson([events |-> Len(Rec), violations |-> m.viol, deviations |-> m.devs])>>)
 =============================================================================
